@@ -163,6 +163,22 @@ def check_case(ctx, case):
                 for B in mats[1:]:
                     ref = ref @ B
                 probs += ident(res, ref, ds * len(mats) * max(dims), 'matmul-not-the-sum-of-products')
+                # the operator form on matrix-valued correlators: `Corr @ Corr`, `Corr @ array`, `array @ Corr` act timeslice
+                # by timeslice and are the same product
+                if dims[0] >= 2 and not cplx:
+                    ctx.count('matmul-operator-on-corr')
+                    m0 = [gen_matrix(rng, nprng, layout, well(nprng, dims[0], dims[0]), p_num=0.0) for _ in range(2)]
+                    ca = pe.Corr([m0[0], None, m0[1]])
+                    cb = pe.Corr([m0[1], None, m0[0]])
+                    plain = np.real(well(nprng, dims[0], dims[0]))
+                    for nm, got, want in (('corr-corr', ca @ cb, [m0[0] @ m0[1], None, m0[1] @ m0[0]]),
+                                          ('corr-array', ca @ plain, [m0[0] @ plain, None, m0[1] @ plain]),
+                                          ('array-corr', plain @ cb, [plain @ m0[1], None, plain @ m0[0]])):
+                        if not isinstance(got, pe.Corr) or got.T != 3 or got.content[1] is not None:
+                            probs.append(('violation', 'matmul-operator-shape:' + nm, repr(type(got))))
+                            continue
+                        for t in (0, 2):
+                            probs += ident(got.content[t], want[t], ds * 2 * dims[0], 'matmul-operator-not-the-sum-of-products:' + nm)
                 if not cplx:
                     # one entry against the analytic gradient, by configuration number, and against the Lean model
                     i, j = rng.randrange(dims[0]), rng.randrange(dims[-1])
